@@ -39,15 +39,17 @@ theorem finish_exists (next : Pos) (P : Pos → Prop)
   exact ⟨_, hf, h wg bg hw hb⟩
 
 /-- what the proof needs to know about the position `q` after the winning move of the side whose bitboard
-is `own` (before) / `own'` (after): the square `s` now belongs to the side, nothing else of it moved except
+is `own` (before) / `own'` (after), the other side's `opp` / `opp'`: the square `s` now belongs to the side, nothing else of it moved except
 possibly the origin square `j`, no new wall appeared, and `q` carries the analysis of its own bitboards. -/
-structure After (p q : Pos) (j s : Nat) (own own' : W) : Prop where
+structure After (p q : Pos) (j s : Nat) (own own' opp opp' : W) : Prop where
   c_eq : q.c = p.c
   cfg_eq : q.cfg = p.cfg
   move_eq : q.move = p.move + 1
   at_s : own'.getLsbD s = true
   keep : ∀ k, k ≠ j → own.getLsbD k = true → own'.getLsbD k = true
   upper : ∀ k, own'.getLsbD k = true → own.getLsbD k = true ∨ k = s ∨ k = j
+  oupper : ∀ k, opp'.getLsbD k = true → opp.getLsbD k = true ∨ k = j
+  disj : ∀ k, own'.getLsbD k = true → opp'.getLsbD k = true → False
   stand : ∀ k, q.standing.getLsbD k = true → p.standing.getLsbD k = true
   wg : floodGroups q.c (q.white &&& ~~~q.standing) = some q.wgroups
   bg : floodGroups q.c (q.black &&& ~~~q.standing) = some q.bgroups
